@@ -35,7 +35,7 @@ def get_cache_key(
     """
     kwargs = kwargs or {}
     if not args and template and _KWARGS not in template and _ARGS not in template:
-        key_values = kwargs
+        key_values = {**_get_func_defaults(func), **kwargs}
     else:
         key_values = _get_call_values(func, args, kwargs)
     _key_template = template or get_cache_key_template(func)
@@ -144,13 +144,25 @@ def _get_func_signature(func: Callable):
     return inspect.signature(func)
 
 
+@lru_cache(maxsize=1000)
+def _get_func_defaults(func: Callable) -> dict:
+    """what a call without positional arguments binds to the parameters it does not mention"""
+    defaults: dict[str, Any] = {}
+    for name, parameter in _get_func_signature(func).parameters.items():
+        if parameter.kind == inspect.Parameter.VAR_POSITIONAL:
+            defaults[_ARGS] = ()
+        elif parameter.kind != inspect.Parameter.VAR_KEYWORD and parameter.default is not inspect.Parameter.empty:
+            defaults[name] = parameter.default
+    return defaults
+
+
 def _get_call_values(func: Callable, args: Args, kwargs: Kwargs):
     if not args:
         _kwargs = {**kwargs}
         for name, parameter in _get_func_signature(func).parameters.items():
             if parameter.kind != inspect.Parameter.VAR_KEYWORD and name in _kwargs:
                 del _kwargs[name]
-        return {**kwargs, _KWARGS: _kwargs}
+        return {**_get_func_defaults(func), **kwargs, _KWARGS: _kwargs}
 
     signature = _get_func_signature(func).bind(*args, **kwargs)
     signature.apply_defaults()
